@@ -3,6 +3,7 @@ import Qv.Codec.L2
 import Qv.Codec.Refcount
 import Qv.Codec.Info
 import Qv.Model.FreeRange
+import Qv.Codec.Header
 /-
 `pure` mode of the driver: answers the codec request lines of the harness
 (src/pure.rs) from the model.  Response text must be byte-identical to the
@@ -97,9 +98,26 @@ def respGeo (g : GeoArgs) (off : Nat) : String :=
     s!" rti={Host.rtIndex i off} rbi={Host.rbIndex i off} rsi={Host.rbSliceIndex i off} rkey={Host.rbSliceKey i off} rss={Host.rbSliceHostStart i off} rse={Host.rbSliceHostEnd i off} rbs={Host.rbHostStart i off} rbe={Host.rbHostEnd i off} roit={Host.rbSliceOffInTable i off}" ++
     s!" rbe_n={i.rbEntries} l2e_n={i.l2Entries} rbse_n={i.rbSliceEntries} maxl1={i.maxL1Entries}"
 
+def hexL (l : List UInt8) : String := hexBytes l.toArray
+
+def respHdr (b : Array UInt8) : String :=
+  match Hdr.parse b with
+  | .panic _ => "hdr panic"
+  | .err _ => "hdr err"
+  | .ok h =>
+    let ser := if Hdr.unmodelledSer h then "unmodelled" else
+      match Hdr.serialize h with
+      | .ok v => hexL v
+      | .err _ => "err"
+      | .panic _ => "panic"
+    let o := fun (x : Option (List UInt8)) => match x with | some l => hexL l | none => "-"
+    s!"hdr ok ver={h.raw.version} cb={h.raw.clusterBits} size={h.raw.size} crypt={h.raw.crypt} l1off={h.raw.l1Off} l1n={h.raw.l1Size} rtoff={h.raw.rtOff} rtc={h.raw.rtClusters} nsnap={h.raw.nbSnap} snapoff={h.raw.snapOff} ro={h.raw.refcountOrder} comp={h.raw.compression} back={o h.backing} bfmt={o (Hdr.backingFormat h)} ser={ser}"
+
 def respondPure (line : String) : String :=
   match line.splitOn " " with
   | ["l2", cb, hb, g, e] => respL2 (nat! cb) (hb == "1") (nat! g) (hex! e)
+  | ["hdr", b] => respHdr (unhex b)
+  | ["hdr"] => respHdr #[]
   | ["l1", cb, e] => respL1 (nat! cb) (hex! e)
   | ["rt", cb, e] => respRt (nat! cb) (hex! e)
   | ["rc", order, init, op, i, v] => respRc (nat! order) (unhex init) op (nat! i) (nat! v)
